@@ -55,9 +55,10 @@ def _pos_in_target(target, name):
 
 
 class Flow(object):
-  def __init__(self, fn):
+  def __init__(self, fn, passthrough=True):
     self.fn = fn
     self.cfg = fn.cfg
+    self.passthrough = passthrough    # see through sorted()/list()/... (same elements)
     self.du = DefUse(fn)
     self.defs = {}      # statement-level bindings only (comprehension targets do not leak)
     for n in self.cfg.nodes:
@@ -153,7 +154,7 @@ class Flow(object):
         out = []
         for e in root.node.elts:
           out.extend(s.plus(*root.path[1:]) for s in self.roots(e, root.nid, seen, depth + 1))
-        return out
+        return out or [Root("empty", root.node, (), root.nid)]
     if root.path and root.kind == "comp" and root.path[0][0] == "elem" and \
         not isinstance(root.node, ast.DictComp):
       sub = self.roots(root.node.elt, root.nid, seen, depth + 1)
@@ -167,7 +168,7 @@ class Flow(object):
       return [Root("const", e, (), nid)]
     if isinstance(e, ast.Call):
       fname = dotted(e.func)
-      if fname in PASSTHROUGH and len(e.args) == 1 and not e.keywords:
+      if self.passthrough and fname in PASSTHROUGH and len(e.args) == 1 and not e.keywords:
         return self.roots(e.args[0], nid, seen, depth + 1)
       return [Root("call", e, (), nid)]
     if isinstance(e, ast.Attribute):
@@ -540,4 +541,6 @@ def _classify_root(w, fn, flow, r, names, extra):
     return "unresolved list element", True
   if r.kind == "const" and r.node.value is None:
     return True, False
+  if r.kind == "empty":
+    return True, False      # element of an empty literal: nothing is emitted
   raise AnalysisError("%s: cannot follow gateway argument origin %r" % (q, r))
